@@ -102,6 +102,11 @@ pub enum Ev {
     /// the same sender flow without echo: the receiver learns the sender's delivery-count (advanced over the
     /// unused credit if it had asked to drain) and sends nothing back
     SFlowQuiet,
+    /// the sender starts a two-frame delivery and aborts it (second frame: aborted=true), then reports its
+    /// delivery-count at once with a link flow (echo).  Whether an aborted delivery counts is not spelt out by
+    /// the specification; the scripted sender counts it (like qpid-proton) and says so in that flow, which is
+    /// the value "last learnt from the sender" from then on.  Nothing is handed to the application.
+    TxAbort,
     /// application: recv() once (a complete delivery is waiting)
     Recv,
     /// application: recv() until nothing is waiting (at least two are waiting)
@@ -122,7 +127,7 @@ pub enum Ev {
     Drain,
 }
 
-pub const FULL: [Ev; 17] = [
+pub const FULL: [Ev; 18] = [
     Ev::TxOne,
     Ev::Recv,
     Ev::AccOld,
@@ -140,11 +145,12 @@ pub const FULL: [Ev; 17] = [
     Ev::SetCreditHi,
     Ev::Drain,
     Ev::SFlowQuiet,
+    Ev::TxAbort,
 ];
 /// the core of the alphabet (used for the deepest level)
 pub const CORE: [Ev; 8] = [Ev::TxOne, Ev::Recv, Ev::AccOld, Ev::TxLimit, Ev::TxOver, Ev::SFlow, Ev::RecvAll, Ev::AccAll];
 /// the core plus the undecodable delivery (deepest level of the small Auto(n), where every credit counts)
-pub const CORE_BAD: [Ev; 9] = [Ev::TxOne, Ev::Recv, Ev::AccOld, Ev::TxLimit, Ev::TxOver, Ev::SFlow, Ev::RecvAll, Ev::AccAll, Ev::TxBad];
+pub const CORE_BAD: [Ev; 10] = [Ev::TxOne, Ev::Recv, Ev::AccOld, Ev::TxLimit, Ev::TxOver, Ev::SFlow, Ev::RecvAll, Ev::AccAll, Ev::TxBad, Ev::TxAbort];
 
 /// the core for Manual links (credit exists only after a set_credit)
 pub const CORE_MANUAL: [Ev; 10] = [Ev::SetCreditHi, Ev::TxOne, Ev::Recv, Ev::TxLimit, Ev::TxOver, Ev::SFlow, Ev::RecvAll, Ev::SetCreditLo, Ev::Drain, Ev::SFlowQuiet];
@@ -226,6 +232,7 @@ pub struct Counters {
     pub bad_handed: u64,
     pub bad_disposed: u64,
     pub bad_refused_over_limit: u64,
+    pub aborted_sent: u64,
 }
 
 impl Counters {
@@ -246,6 +253,7 @@ impl Counters {
         self.bad_handed += o.bad_handed;
         self.bad_disposed += o.bad_disposed;
         self.bad_refused_over_limit += o.bad_refused_over_limit;
+        self.aborted_sent += o.aborted_sent;
     }
     fn json(&self) -> serde_json::Value {
         json!({
@@ -265,6 +273,7 @@ impl Counters {
             "undecodable_deliveries_received_as_decode_error": self.bad_handed,
             "undecodable_deliveries_rejected_or_released_through_the_error_info": self.bad_disposed,
             "undecodable_deliveries_refused_as_transfer_limit_violation": self.bad_refused_over_limit,
+            "aborted_deliveries_sent": self.aborted_sent,
         })
     }
 }
@@ -865,6 +874,31 @@ impl Harness {
         seq
     }
 
+    /// a delivery of two frames whose second frame aborts it; the sender counts it (see `Ev::TxAbort`)
+    fn send_aborted_delivery(&mut self) {
+        let id = self.next_delivery_id;
+        self.next_delivery_id = self.next_delivery_id.wrapping_add(1);
+        for k in 0..2 {
+            let t = Transfer {
+                handle: Handle(self.our_handle),
+                delivery_id: Some(id),
+                delivery_tag: Some(serde_bytes::ByteBuf::from(format!("a{id}").into_bytes())),
+                message_format: Some(0),
+                settled: Some(false),
+                more: k == 0,
+                rcv_settle_mode: None,
+                state: None,
+                resume: false,
+                aborted: k == 1,
+                batchable: false,
+            };
+            let body: &[u8] = if k == 0 { &[0x00, 0x53, 0x77, 0xa1] } else { &[] };
+            self.peer.send_perf(self.our_ch, Performative::Transfer(t), body);
+        }
+        self.mon.snd_dc = self.mon.snd_dc.wrapping_add(1);
+        self.mon.cnt.aborted_sent += 1;
+    }
+
     /// the sender's own link flow: its delivery-count and the credit it believes it has
     fn send_sender_flow(&mut self, echo: bool) {
         let last = self.mon.rflows.last().unwrap().clone();
@@ -1027,7 +1061,7 @@ impl Harness {
         let queued = self.mon.queued();
         let und = self.undisposed.len();
         match ev {
-            Ev::TxOne | Ev::TxMulti | Ev::TxSettled | Ev::TxBad => credit >= 1,
+            Ev::TxOne | Ev::TxMulti | Ev::TxSettled | Ev::TxBad | Ev::TxAbort => credit >= 1,
             Ev::TxLimit => credit >= 2,
             Ev::TxOver => credit == 0,
             Ev::SFlow | Ev::SFlowQuiet => true,
@@ -1035,6 +1069,9 @@ impl Harness {
             Ev::RecvAll => queued >= 2,
             Ev::AccOld | Ev::AccDisp => und >= 1,
             Ev::AccNew | Ev::AccAll => und >= 2,
+            // the statement quantifies drain() over Manual links only.  (Tried: drain() on an Auto(n) link.  When the
+            // sender gives the credit back and nothing is left to dispose of, the UNCHANGED library never re-issues
+            // credit - a stall outside the quantifier, noted in FOLLOWUPS.md, not judged here.)
             Ev::SetCreditLo | Ev::SetCreditHi | Ev::Drain => self.cfg.policy == Policy::Manual,
         }
     }
@@ -1079,6 +1116,11 @@ impl Harness {
             Ev::SFlowQuiet => {
                 self.send_sender_flow(false);
                 self.quiesce(Cause::Spontaneous).await;
+            }
+            Ev::TxAbort => {
+                self.send_aborted_delivery();
+                self.send_sender_flow(true);
+                self.quiesce(Cause::Report).await;
             }
             Ev::Recv => {
                 self.recv_once().await;
@@ -1579,7 +1621,17 @@ fn plans(quick: bool) -> Vec<Plan> {
             v.push(Plan { cfg, alphabet: core, alphabet_name: core_name, depth: if deep { 6 } else { 5 } });
         } else {
             v.push(Plan { cfg, alphabet: &FULL, alphabet_name: "full", depth: if deep { 6 + x } else { 5 + x } });
-            v.push(Plan { cfg, alphabet: core, alphabet_name: core_name, depth: if deep { 8 + x } else { 7 + x } });
+            // (the two largest core searches are one event shallower in the quick tier: they alone took 18 s)
+            let core_depth = if manual {
+                6 + 2 * x
+            } else if p == Policy::Auto(2) {
+                7 + 2 * x
+            } else if deep {
+                8 + x
+            } else {
+                7 + x
+            };
+            v.push(Plan { cfg, alphabet: core, alphabet_name: core_name, depth: core_depth });
         }
         // listener side
         let cfg = Cfg { side: Side::Listener, policy: p, idc: 5 };
